@@ -214,6 +214,25 @@ class CounterVal(dict):
     """collections.Counter"""
 
 
+class SuperVal:
+    """super(C, obj): method calls resolve in the classes after C in obj's method resolution order."""
+
+    def __init__(self, cls, obj):
+        self.cls, self.obj = cls, obj
+
+    def ai_call(self, interp, attr, pos, kw, node):
+        mro = interp.proj.mro(self.cls)
+        for k in mro[1:]:
+            m = k.methods.get(attr)
+            if m is not None:
+                if m.qual in interp.summaries:
+                    return interp.summaries[m.qual](interp, pos, kw, node)
+                return interp.call_func(m, pos, kw, self_obj=self.obj, node=node)
+        if attr == "__init__":
+            return None          # object.__init__
+        raise Unsupported("super().%s not found" % attr)
+
+
 class GenList(list):
     """The items a generator expression will produce (evaluated eagerly): a list to every consumer, and next() takes
     items off its front."""
@@ -813,6 +832,10 @@ class Interp:
         if mod is not None:
             tgt = mod.imports.get(node.id)
             if tgt is not None:
+                if (modname, node.id) in self.overrides:
+                    return self.overrides[(modname, node.id)]          # the importing module's own binding
+                if "." in tgt and tuple(tgt.rsplit(".", 1)) in self.overrides:
+                    return self.overrides[tuple(tgt.rsplit(".", 1))]
                 if tgt in self.proj.modules:
                     return ModVal(tgt)
                 if tgt in self.proj.funcs:
@@ -856,7 +879,7 @@ class Interp:
         if node.id in ("str", "int", "list", "tuple", "dict", "set", "bytes", "float", "bool", "object"):
             return TypeVal(node.id)
         if node.id in ("isinstance", "len", "map", "locals", "hasattr", "any", "all", "sorted", "enumerate",
-                       "range", "zip", "getattr", "iter", "print", "min", "max", "repr", "type", "ord", "chr", "hex", "setattr", "delattr", "next", "vars", "callable", "sum", "abs", "hash", "float", "slice", "open", "issubclass", "reversed", "divmod", "format", "filter", "frozenset"):
+                       "range", "zip", "getattr", "iter", "print", "min", "max", "repr", "type", "ord", "chr", "hex", "setattr", "delattr", "next", "vars", "callable", "sum", "abs", "hash", "float", "slice", "open", "issubclass", "reversed", "divmod", "format", "filter", "frozenset", "super"):
             return Builtin(node.id)
         if node.id in ("ValueError", "TypeError", "KeyError", "NotImplementedError", "Exception", "StopIteration"):
             return TypeVal(node.id)
@@ -893,10 +916,17 @@ class Interp:
                 m_ = self._class_method(base.kind, node.attr)
                 if m_ is not None and any(isinstance(d, ast.Name) and d.id == "property" for d in m_.node.decorator_list):
                     return self.call_func(m_, [], {}, self_obj=base, node=node)
-            if isinstance(base, Opaque) and base.name in ("self", "cls"):
-                # a class-level constant (self._SQL): the class body assignment, along the MRO
+            if isinstance(base, Opaque) and (base.name in ("self", "cls") or isinstance(base.attrs.get("__class__"), TypeVal)):
+                # a class-level constant (self._SQL): the class body assignment, along the MRO of the receiver's class
                 func = env.get("__func__")
-                c = getattr(func, "cls", None)
+                c = None
+                if isinstance(base.attrs.get("__class__"), TypeVal):
+                    c = self.proj.classes.get(base.attrs["__class__"].name)
+                elif base.kind != "obj":
+                    cs_ = [k_ for q_, k_ in self.proj.classes.items() if q_.split(".")[-1] == base.kind]
+                    c = cs_[0] if len(cs_) == 1 else None
+                if c is None:
+                    c = getattr(func, "cls", None)
                 f_ = func
                 while c is None and f_ is not None and getattr(f_, "parent", None) is not None:
                     f_ = f_.parent
@@ -1485,6 +1515,22 @@ class Interp:
             return list(_it.islice(pos[0], *pos[1:]))
         if name == "itertools.chain.from_iterable" and len(pos) == 1 and isinstance(pos[0], (list, tuple)) and all(isinstance(x, (list, tuple)) for x in pos[0]):
             return [y for x in pos[0] for y in x]
+        if name == "collections.defaultdict":
+            import collections as _c
+            fac = pos[0] if pos else None
+            pyfac = {"int": int, "list": list, "dict": dict, "set": list, "str": str}.get(getattr(fac, "name", None)) if isinstance(fac, TypeVal) else (None if fac is None else NotImplemented)
+            if pyfac is NotImplemented:
+                return NotImplemented
+            d_ = _c.defaultdict(pyfac)
+            if len(pos) > 1:
+                if isinstance(pos[1], dict):
+                    d_.update(pos[1])
+                elif isinstance(pos[1], (list, tuple)):
+                    d_.update(pos[1])
+                else:
+                    return NotImplemented
+            d_.update(kw)
+            return d_
         if name == "collections.OrderedDict":
             return self.call_type("dict", pos, kw, node)
         if name == "collections.Counter" and not kw:
@@ -1808,6 +1854,13 @@ class Interp:
         raise Unsupported("constructor %s" % name)
 
     def call_builtin(self, name, pos, kw, node, env):
+        if name == "super":
+            func = env.get("__func__")
+            c_ = self.proj.classes.get(pos[0].name) if pos and isinstance(pos[0], TypeVal) else getattr(func, "cls", None)
+            o_ = pos[1] if len(pos) > 1 else env.get("self")
+            if c_ is None or o_ is None:
+                raise Unsupported("super() outside a method")
+            return SuperVal(c_, o_)
         if name == "frozenset":
             return self.call_type("set", pos, kw, node)
         if name == "isinstance":
